@@ -223,10 +223,12 @@ def match_known(prop, case, vclass, known=None):
     """Return the finding (status 'finding') this violation is an instance of, or None."""
     known = load_known() if known is None else known
     for k in known:
-        if k.get('status') != 'finding' or k['property'] != prop:
+        props = k['property'] if isinstance(k['property'], list) else [k['property']]
+        if k.get('status') != 'finding' or prop not in props:
             continue
         sig = k['signature']
-        if sig.get('class') and sig['class'] != vclass:
+        classes = sig.get('class')
+        if classes and vclass not in (classes if isinstance(classes, list) else [classes]):
             continue
         if sig.get('family') and sig['family'] != case.get('family'):
             continue
@@ -245,6 +247,10 @@ def match_known(prop, case, vclass, known=None):
             continue
         if 't_min' in cfgc and cfg['t'] < cfgc['t_min']:
             continue
+        if cfgc.get('fxp_l_gt_2f1'):
+            td = (case.get('prog') or {}).get('type') or {}
+            if not ('f' in td and td['l'] > 2 * td['f'] + 1):
+                continue
         if cfgc.get('lifted'):
             td = (case.get('prog') or {}).get('type') or {}
             if not (td.get('d') == 1 and cfg['t'] > 0 and cfg['m'] >= td.get('p', 1 << 62)):
